@@ -103,7 +103,7 @@ package markdown
 
 //@ func New
 //@   tags C10,C09
-//@   ensures result != nil && fresh(result) && tbl(result.Table)
+//@   ensures result != nil && fresh(result) && dyn(result.Table) == type[*tabular.ATable] && WF(result.Table.(*tabular.ATable))
 
 //@ func (*MarkdownTable).Render
 //@   tags C09,C10
@@ -115,10 +115,12 @@ package markdown
 //@ func Render
 //@   tags C09,C10
 //@   requires tbl(t) && t.(*tabular.ATable).nColumns <= 1099511627774
+//@   call Wrap after assume tbl(t)
 //@   ensures [error-means-no-text] result1 != nil ==> result0 == "" @C09
 
 //@ func RenderTo
 //@   tags C09,C10,C15
 //@   requires tbl(t) && t.(*tabular.ATable).nColumns <= 1099511627774
+//@   call Wrap after assume tbl(t)
 //@   requires [writer-ok] !Wfailed
 //@   ensures [failing-writer-surfaces] Wfailed ==> result != nil @C15
